@@ -250,6 +250,9 @@ def _run_conc(sc, tape, b, name, probes):
                     stored.setdefault(tuple(c), set()).add(C.payload(p))
             elif op[0] == 'remove':
                 last[tuple(op[1])] = None
+            elif op[0] == 'remove_many':
+                for c in op[2]:
+                    last[tuple(c)] = None
         final_by_proc.append(last)
     in_bundle = {}       # bundle base -> set of procs currently inside a mutating call on it
     overlap = [0]
@@ -277,9 +280,19 @@ def _run_conc(sc, tape, b, name, probes):
                         _enter(bb, pi)
                         cache.remove_tile(C.make_tile(op[1]))
                         _leave(bb, pi)
-                    elif op[0] in ('load', 'is_cached'):
+                    elif op[0] == 'remove_many':
+                        bbs = set(BP.bundle_base(c) for c in op[2])
+                        for bb in bbs:
+                            _enter(bb, pi)
+                        cache.remove_tiles([C.make_tile(c) for c in op[2]])
+                        for bb in bbs:
+                            _leave(bb, pi)
+                    elif op[0] in ('load', 'is_cached', 'load_meta'):
                         t = C.make_tile(op[1])
-                        if op[0] == 'load':
+                        if op[0] == 'load_meta':
+                            cache.load_tile(t, with_metadata=True)
+                            _check_read(what, op[1], t)
+                        elif op[0] == 'load':
                             cache.load_tile(t)
                             _check_read(what, op[1], t)
                         else:
